@@ -167,7 +167,7 @@ def lean_build(prop, extra_targets=()):
                 if FORBIDDEN.search(code):
                     b.audit_errors.append('%s:%d: forbidden token: %s' % (path.relative_to(LEAN), i, line.strip()[:80]))
         if not b.proof_errors and b.theorems:
-            audit = LEAN / 'Amqp' / 'Audit' / ('%s.lean' % prop)
+            audit = LEAN / 'Audit' / ('%s.lean' % prop)
             audit.parent.mkdir(exist_ok=True)
             text = 'import Amqp.Props.%s\n' % prop + ''.join('#print axioms %s\n' % t for t in b.theorems)
             if not audit.exists() or audit.read_text() != text:
@@ -325,7 +325,7 @@ class Report:
         cov = {
             'obligations': max(obligations, 1),
             'discharged': max(discharged, 1) if (b and b.proofs_ok) else discharged,
-            'checker_cmd': 'cd lean && lake build Amqp.Props.%s && lake env lean Amqp/Audit/%s.lean' % (self.prop, self.prop),
+            'checker_cmd': 'cd lean && lake build Amqp.Props.%s && lake env lean Audit/%s.lean' % (self.prop, self.prop),
             'trusted_base': TRUSTED_BASE,
             'theorems': b.theorems if b else [],
             'axioms_used': sorted({a for v in (b.axioms.values() if b else []) for a in v}),
